@@ -25,10 +25,10 @@ from harness import gen_template as G
 
 FEATURES = ("call-in-call-expr-args", "return-in-buffering-def", "caller-in-def-nested-in-call",
             "decorated-def-in-call", "nested-call-def-reached-by-outer-callee")
-# features whose defect was repaired in /repo (0522f73, d4e81ab): the generator no longer keeps away from them - they are
-# part of the main streams - and a violation they explain is NOT a recorded finding any more; their dedicated streams
-# stay as regression streams (a revert of the fix is found there first)
-REPAIRED = ("caller-in-def-nested-in-call", "decorated-def-in-call")
+# features whose defect was repaired in /repo (0522f73, d4e81ab, 4a9e6c6): the generator no longer keeps away from them -
+# they are part of the main streams - and a violation they explain is NOT a recorded finding any more; their dedicated
+# streams stay as regression streams (a revert of the fix is found there first)
+REPAIRED = ("caller-in-def-nested-in-call", "decorated-def-in-call", "nested-call-def-reached-by-outer-callee")
 
 
 class Knobs(G.Knobs):
